@@ -1,5 +1,6 @@
 import CandidModel.Proofs.SubSound
 import CandidModel.Proofs.SubComplete
+import CandidModel.Proofs.SubTrans
 /-
   C05 — Subtype and upgrade checks decide the spec relation, independent of order and history.
   Structural facts about the specification relation, and soundness of the checking algorithm (memo table,
@@ -162,5 +163,24 @@ fine (any type is a subtype of those); the witness is replayed on the implementa
 theorem subtyping_is_not_transitive_at_a_null_field :
     Sub [] Trans.rNat Trans.rEmpty ∧ Sub [] Trans.rEmpty Trans.rNull ∧ ¬ Sub [] Trans.rNat Trans.rNull :=
   ⟨Trans.sub12, Trans.sub23, Trans.not_sub13⟩
+
+/-- **… and that is the only obstruction on first-order types**: over an environment whose definitions resolve and
+have distinct field ids (`GoodEnv`), for types without function or service references within reach (`FOT`),
+`a <: b` and `b <: c` give `a <: c` whenever no record type within reach of `c` has a field whose type unfolds to
+`null` (`NNT`).  (By coinduction on chains; the record case is where a field dropped by `b` and re-added by `c` must
+be a supertype of whatever `a` had there — true of `opt _` and `reserved`, false of `null`.) -/
+theorem subtyping_is_transitive_away_from_null_fields (env : Env) (hg : Wire.GoodEnv env) (a b c : Ty)
+    (hga : Wire.goodTy env a = true) (hgb : Wire.goodTy env b = true) (hgc : Wire.goodTy env c = true)
+    (hfa : Wire.FOT env a) (hfb : Wire.FOT env b) (hfc : Wire.FOT env c) (hnn : Wire.NNT env c)
+    (h1 : Sub env a b) (h2 : Sub env b c) : Sub env a c :=
+  Wire.sub_trans_no_null_field env hg a b c hga hgb hgc hfa hfb hfc hnn h1 h2
+
+/-- non-vacuity: the chain of the counterexample with `opt text` in place of `null` meets every hypothesis -/
+example :
+    let a : Ty := .record (.cons (.named "x") (.prim .nat) .nil)
+    let c : Ty := .record (.cons (.named "x") (.opt (.prim .text)) .nil)
+    Wire.goodTy [] a = true ∧ Wire.goodTy [] c = true ∧ De.allTy Wire.fo1 a = true ∧ De.allTy Wire.fo1 c = true ∧
+      De.allTy (Wire.nn1 []) c = true := by
+  refine ⟨by decide, by decide, by decide, by decide, by decide⟩
 
 end Candid.Props.C05
